@@ -137,10 +137,16 @@ class Sched:
                 raise HarnessError('thread %s did not unwind at teardown (label %s)' % (t.name, t.label))
         self.cur = None
 
-    def spawn(self, thread_obj, body, name=None, lazy=False):
-        """Register a new controlled thread executing body() (called from a controlled thread)."""
+    def spawn(self, thread_obj, body, name=None, lazy=False, start_at=None, label=''):
+        """Register a new controlled thread executing body() (called from a controlled thread).  With start_at the
+        thread is born asleep until that virtual instant (an environment timer: no start-up step of its own)."""
         vt = VT(len(self.threads), name or getattr(thread_obj, 'name', 'T'), thread_obj)
         vt.lazy = lazy
+        if start_at is not None:
+            vt.state = BLOCKED
+            vt.pred = _never
+            vt.deadline = start_at
+            vt.label = label
         self.threads.append(vt)
 
         def boot():
@@ -151,6 +157,9 @@ class Sched:
             try:
                 if not self.killing:
                     vt.lazy = False
+                    vt.state = READY
+                    vt.pred = None
+                    vt.deadline = None
                     body()
             except Kill:
                 pass
@@ -230,6 +239,8 @@ class Sched:
                                    if t is not default and t.state != DONE and (t.lazy or t in nonlazy)]
             self.npoints += 1
             if len(options) > 1 and not self.frozen:
+                # which alternatives are parked environment threads (and what they are waiting to do): for filters
+                self.lazy_options = tuple((k, t.label) for k, t in enumerate(options) if t.lazy and k > 0)
                 k = self.chooser(len(options), label)
                 if not 0 <= k < len(options):
                     raise HarnessError('chooser returned %r for %d options' % (k, len(options)))
